@@ -4,6 +4,7 @@ import (
 	"fmt"
 	"strconv"
 	"strings"
+	"unsafe"
 
 	typ "gopkg.in/typ.v4"
 	"pgregory.net/rapid"
@@ -31,9 +32,24 @@ type Special struct {
 	Cond    bool   `json:"cond,omitempty"`
 	Lead    int    `json:"lead,omitempty"`
 	LeadVal int    `json:"lead_val,omitempty"`
+	// Coal only: Sets override single arguments (position modulo the number of arguments) with table entries, after
+	// the list Lead x LeadVal + Vals has been built; View passes the list as a window into a larger buffer whose other
+	// elements hold a non-zero value of the type; Procs (C20.bigcoal only) is runtime.GOMAXPROCS during the call.
+	Sets  []SpecialSet `json:"sets,omitempty"`
+	View  *View        `json:"view,omitempty"`
+	Procs int          `json:"procs,omitempty"`
 }
 
-const maxLead = 5000
+type SpecialSet struct {
+	Pos int `json:"pos"`
+	Val int `json:"val"`
+}
+
+const (
+	maxLead    = 5000
+	maxBigLead = 1<<17 + 64
+	maxCoalMem = 64 << 20 // bytes of one argument buffer
+)
 
 type battery[T any] struct {
 	name      string
@@ -134,11 +150,21 @@ func (b *battery[T]) describe(es []ent[T], v T) string {
 }
 
 func RunSpecial(c Special) pbt.Outcome {
+	if c.Procs != 0 {
+		return malformed()
+	}
+	return runSpecial(c, maxLead)
+}
+
+func runSpecial(c Special, maxLead int) pbt.Outcome {
 	st := specialType_(c.Type)
 	if st == nil || !st.has(c.Fn) || len(c.Vals) > 16 || c.Lead < 0 || c.Lead > maxLead || (c.Lead > 0 && c.Fn != "Coal") {
 		return malformed()
 	}
 	if st.heavy && c.Lead > 600 {
+		return malformed()
+	}
+	if (c.View != nil || len(c.Sets) > 0) && c.Fn != "Coal" || len(c.Sets) > 8 || !c.View.ok() {
 		return malformed()
 	}
 	return st.run(c)
@@ -198,8 +224,27 @@ func runCmp[T comparable](b *battery[T], c Special) pbt.Outcome {
 			return pbt.Fail("typ.IsZero[%s](%s) = %v, want %v (the zero value, or a value whose own IsZero() bool method says true)", b.name, x.desc, got, x.isZero)
 		}
 	case "Coal":
-		args := make([]T, 0, c.Lead+len(c.Vals))
-		idx := make([]int, 0, c.Lead+len(c.Vals))
+		total := c.Lead + len(c.Vals)
+		var args []T
+		if c.View != nil {
+			if uintptr(c.View.Off+total+c.View.Spare)*unsafe.Sizeof(zero) > maxCoalMem {
+				return malformed()
+			}
+			buf := make([]T, c.View.Off+total+c.View.Spare)
+			for _, x := range es { // poison: the first non-zero value of the table (a zero-only type has none)
+				if !x.goZero {
+					for i := range buf {
+						buf[i] = x.v
+					}
+					break
+				}
+			}
+			args = buf[c.View.Off:c.View.Off] // length 0, capacity total+Spare: the appends below stay inside the buffer
+			out.Labels = append(out.Labels, c.View.labels(int(unsafe.Sizeof(zero)))...)
+		} else {
+			args = make([]T, 0, total)
+		}
+		idx := make([]int, 0, total)
 		if c.Lead > 0 {
 			li := imod(c.LeadVal, n)
 			for i := 0; i < c.Lead; i++ {
@@ -211,6 +256,15 @@ func runCmp[T comparable](b *battery[T], c Special) pbt.Outcome {
 			i := imod(v, n)
 			args = append(args, es[i].v)
 			idx = append(idx, i)
+		}
+		for _, st := range c.Sets {
+			if total > 0 {
+				p, i := imod(st.Pos, total), imod(st.Val, n)
+				args[p], idx[p] = es[i].v, i
+			}
+		}
+		if len(c.Sets) > 0 {
+			out.Labels = append(out.Labels, "coal:single-arguments-overridden")
 		}
 		first := -1
 		distinct, liar := false, false
@@ -253,10 +307,15 @@ func runCmp[T comparable](b *battery[T], c Special) pbt.Outcome {
 		if got := typ.Coal(args...); !b.same(got, want) {
 			var ds []string
 			if c.Lead > 0 {
-				ds = append(ds, fmt.Sprintf("%d x %s", c.Lead, es[idx[0]].desc))
+				ds = append(ds, fmt.Sprintf("%d x %s", c.Lead, es[imod(c.LeadVal, n)].desc))
 			}
 			for _, i := range idx[c.Lead:] {
 				ds = append(ds, es[i].desc)
+			}
+			for _, st := range c.Sets {
+				if total > 0 {
+					ds = append(ds, fmt.Sprintf("[then argument #%d replaced by %s]", imod(st.Pos, total), es[imod(st.Val, n)].desc))
+				}
 			}
 			return pbt.Fail("typ.Coal[%s](%s) = %s, want %s", b.name, strings.Join(ds, ", "), b.describe(es, got), wantDesc)
 		}
@@ -532,6 +591,12 @@ func genSpecial(t *rapid.T) Special {
 		if c.Lead > 0 && len(st.zeroish) > 0 {
 			c.LeadVal = st.zeroish[rapid.IntRange(0, len(st.zeroish)-1).Draw(t, "leadval")]
 		}
+		c.View = genView(t, 4)
+		if c.Lead > 0 && rapid.Bool().Draw(t, "sets") {
+			for i, ns := 0, rapid.IntRange(1, 3).Draw(t, "nsets"); i < ns; i++ {
+				c.Sets = append(c.Sets, SpecialSet{Pos: genLongPos(t, c.Lead+len(c.Vals), "setpos"), Val: pick("setval")})
+			}
+		}
 	case "Zero":
 	default:
 		for i := 0; i < 3; i++ {
@@ -552,10 +617,15 @@ var specSpecial = pbt.Register(&pbt.Spec[Special]{
 		"float32/float64/complex128 with -0 and the smallest subnormal, strings with NUL and 5000-byte strings, zero-size types (struct{}, [0]int64, a zero-size type whose IsZero() is false), channels, a 2 KiB array; " +
 		"non-comparable T (slices incl. empty non-nil and shared arrays, maps, funcs, structs with slices) for the helpers over `any`. " +
 		"Enumerated: every single value / pair of values per helper, every Coal list of length 0..3, Coal with runs of 7..4097 zero (or lying) arguments around every power of two followed by nothing, a non-zero value or " +
-		"zero+non-zero; then rapid draws (Coal lists of 0..8 values after 0..5000 leading copies). Typed nil pointers inside interfaces and casts of a nil interface are not generated (outside the statement). " +
+		"zero+non-zero; then rapid draws (Coal lists of 0..8 values after 0..5000 leading copies, half of the long ones with 1..3 single arguments replaced by table values at positions biased to both ends, " +
+		"a quarter passed as a window into a larger buffer filled with a non-zero value). Interface-typed T also holds typed nil pointers, nil channels, nil unsafe.Pointers (any, error, fmt.Stringer, interface{IsZero() bool}: " +
+		"non-nil interfaces, IsNil false, Coal treats them as non-zero, a nil-safe IsZero() is honoured) and, in two tables compared by identity instead of ==, nil slices / maps / funcs and a non-comparable struct; " +
+		"float64 and a struct of floats hold NaN (a non-zero value for Coal and IsZero); element types of 128 and 136 bytes. Casts of a nil interface and interface values whose IsZero method would panic on a nil receiver " +
+		"are not generated (outside the statement). One case in 16 is also run as 4 parallel independent copies. " +
 		"non-trivial = Coal with >= 2 arguments where a zero precedes the answer or two distinct non-zero values occur, or with an argument whose IsZero() disagrees with != zero at or before the answer; " +
 		"Tern/TernCast with different alternatives; every IsZero/Zero/ZeroOf/Ref/DerefZero/IsNil case",
 	Enum: enumSpecial,
 	Gen:  genSpecial,
 	Run:  RunSpecial, Quick: 40000, Thorough: 150000,
+	Replicas: 4, ReplicaEvery: 16,
 })
